@@ -433,6 +433,12 @@ class DFContainer:
             self.locals.pop(place.id, None)
         else:
             self.locals[place.id] = port
+            # If the place is a field or element of a struct or tuple that was packed
+            # earlier, the cached wire of the parent is stale now
+            parent: Place = place
+            while isinstance(parent, FieldAccess | TupleAccess):
+                parent = parent.parent
+                self.locals.pop(parent.id, None)
 
     def __contains__(self, place: Place) -> bool:
         return place.id in self.locals
